@@ -20,12 +20,19 @@ package c15
 //     CloseRead(R): R's reads and the peer's writes fail with io.ErrClosedPipe; the other
 //     direction is not affected;
 //   - deadlines: past => calls of that side fail with a timeout error, pending ones are woken;
-//     future => the same at that instant; zero or a later instant re-enables calls.
+//     future => the same at that instant; zero or a later instant re-enables calls;
+//   - Set{Read,Write}Deadline "implement the net.Conn methods", whose contract is "if the deadline is
+//     exceeded a call to Read or Write [...] will return an error that wraps os.ErrDeadlineExceeded":
+//     a Read / Write that is STARTED when its deadline has already expired returns (0, timeout) even
+//     if a peer Write / Read is parked and ready, and takes / hands over nothing (the parked peer call
+//     stays parked with its count unchanged).
 //
 // Wherever the documentation does not say which of two simultaneously possible results wins,
 // the model is non-deterministic and yields every allowed outcome:
 //   - several readers pending on one end when a write arrives: any of them may take each chunk;
-//   - a call started with an expired deadline while the peer is ready: timeout or transfer;
+//   - a WriteTo started with an expired read deadline while a peer Write is ready, and a call that
+//     is already in progress (a Write between two chunks, a WriteTo between two sink writes) when its
+//     deadline is found expired while the peer is ready: timeout or transfer;
 //   - a call started on a direction that is closed and has an expired deadline: either error;
 //   - reads on a direction closed from both sides (CloseWrite and CloseRead): EOF or ErrClosedPipe;
 //   - Set*Deadline that reports an error on a closed direction: applied or not applied.
@@ -116,6 +123,10 @@ type dirState struct {
 	Wdl     deadline // write deadline of end W
 	RFired  bool     // the read deadline has been in the expired state at some point
 	WFired  bool     // same for the write deadline
+
+	// W closed this direction with Close() at a moment when W's read side (the reverse direction)
+	// was already closed and this direction was still open (evidence only; does not change results)
+	LateClose bool
 }
 
 type model struct {
@@ -178,6 +189,15 @@ type facts struct {
 	CloseInSink     bool // the direction was closed while a chunk was inside the sink
 	WdlInSink       bool // the waiting writer's deadline changed / fired while its chunk was inside the sink
 	StepInSink      bool // any step executed while a sink's Write was pending
+
+	ExpRead  bool // a Read started with an expired read deadline while a peer Write was parked: (0, timeout), nothing consumed
+	ExpWrite bool // a Write started with an expired write deadline while a peer reader was parked: (0, timeout)
+
+	LateClose      bool // Close() of an end whose read side was already closed (own CloseRead / peer's CloseWrite) and whose write side was still open
+	LateClosePRead bool // ... then, before the peer closed anything on that direction, a peer Read/WriteTo was started (must see end-of-stream)
+	LateCloseLWr   bool // ... a local Write was started (must fail with io.ErrClosedPipe)
+	LateClosePWr   bool // ... a peer Write was started (must fail)
+	LateCloseWoke  bool // ... the Close itself woke a peer reader parked on the write side
 }
 
 func (f *facts) or(g facts) {
@@ -200,6 +220,13 @@ func (f *facts) or(g facts) {
 	f.CloseInSink = f.CloseInSink || g.CloseInSink
 	f.WdlInSink = f.WdlInSink || g.WdlInSink
 	f.StepInSink = f.StepInSink || g.StepInSink
+	f.ExpRead = f.ExpRead || g.ExpRead
+	f.ExpWrite = f.ExpWrite || g.ExpWrite
+	f.LateClose = f.LateClose || g.LateClose
+	f.LateClosePRead = f.LateClosePRead || g.LateClosePRead
+	f.LateCloseLWr = f.LateCloseLWr || g.LateCloseLWr
+	f.LateClosePWr = f.LateClosePWr || g.LateClosePWr
+	f.LateCloseWoke = f.LateCloseWoke || g.LateCloseWoke
 }
 
 type outcome struct {
@@ -335,12 +362,18 @@ func settleActive(o outcome, d int, fresh int) []outcome {
 
 	// a writer and at least one reader are ready
 	var outs []outcome
-	if ds.Wdl.Kind == dlExpired { // lenient: the writer may give up instead
+	if ds.Wdl.Kind == dlExpired {
 		b := o
 		b.M = o.M.clone()
-		b.F.Fork = true
 		b.M.D[d].Wr = nil
 		b = b.withComp(comp{ID: w.ID, Kind: cWrite, N: w.N, Errs: eTimeout})
+		if w.ID == fresh && !w.Sent {
+			// net.Conn contract: a Write started after its deadline has passed fails with a timeout
+			// whatever the peer is doing; the parked readers get nothing and keep waiting
+			b.F.ExpWrite = true
+			return settle(b, d, fresh)
+		}
+		b.F.Fork = true // lenient: a write already in progress may give up or hand over the next chunk
 		outs = append(outs, settle(b, d, fresh)...)
 	}
 	if len(ds.Rd) >= 2 && w.ID == fresh && !w.Sent {
@@ -348,13 +381,24 @@ func settleActive(o outcome, d int, fresh int) []outcome {
 	}
 	for i := range ds.Rd {
 		r := ds.Rd[i]
-		if ds.Rdl.Kind == dlExpired { // lenient: this reader may give up instead
+		if ds.Rdl.Kind == dlExpired {
 			b := o
 			b.M = o.M.clone()
-			b.F.Fork = true
 			b.M.D[d].Rd = append(append([]pcall(nil), ds.Rd[:i]...), ds.Rd[i+1:]...)
 			b = b.withComp(comp{ID: r.ID, Kind: r.Kind, N: r.N, Errs: eTimeout, Segs: r.Segs})
+			// net.Conn contract: a Read started after its deadline has passed fails with a timeout
+			// although a peer Write is parked; it takes nothing, the Write keeps waiting.
+			// (WriteTo is not a net.Conn method: started-expired or in progress, it may give up or take the chunk.)
+			strict := r.ID == fresh && r.Kind == cRead
+			if strict {
+				b.F.ExpRead = true
+			} else {
+				b.F.Fork = true
+			}
 			outs = append(outs, settle(b, d, fresh)...)
+			if strict {
+				continue
+			}
 		}
 		// transfer one chunk from w to r
 		b := o
@@ -589,14 +633,26 @@ func (m model) apply(st step, id int, setErr bool) (outs []outcome, bad string) 
 		return settle(o, d, -1), ""
 	case opWrite:
 		ds := &o.M.D[e]
+		if ds.LateClose && !ds.ClosedR {
+			o.F.LateCloseLWr = true
+		}
+		if rev := &o.M.D[1-e]; rev.LateClose && !rev.ClosedR && (ds.ClosedW || ds.ClosedR) {
+			o.F.LateClosePWr = true
+		}
 		ds.Wr = append(ds.Wr, pcall{ID: id, Kind: cWrite, Size: st.N})
 		return settle(o, e, id), ""
 	case opRead:
 		ds := &o.M.D[1-e]
+		if ds.LateClose && !ds.ClosedR {
+			o.F.LateClosePRead = true
+		}
 		ds.Rd = append(ds.Rd, pcall{ID: id, Kind: cRead, Size: st.N})
 		return settle(o, 1-e, id), ""
 	case opWriteTo:
 		ds := &o.M.D[1-e]
+		if ds.LateClose && !ds.ClosedR {
+			o.F.LateClosePRead = true
+		}
 		ds.Rd = append(ds.Rd, pcall{ID: id, Kind: cWriteTo, Size: st.N, Gated: st.G})
 		return settle(o, 1-e, id), ""
 	case opCloseWrite:
@@ -609,6 +665,16 @@ func (m model) apply(st step, id int, setErr bool) (outs []outcome, bad string) 
 		return settle(o, 1-e, -1), ""
 	case opClose:
 		o.F.CloseInSink = o.M.D[e].sinkPending() || o.M.D[1-e].sinkPending()
+		if rd, wr := &o.M.D[1-e], &o.M.D[e]; (rd.ClosedW || rd.ClosedR) && !wr.ClosedW && !wr.ClosedR {
+			// the end's read side is closed already, its write side is not: Close still has to close it
+			o.F.LateClose = true
+			wr.LateClose = true
+			for _, r := range wr.Rd {
+				if !r.InSink {
+					o.F.LateCloseWoke = true
+				}
+			}
+		}
 		o.M.D[1-e].ClosedR = true
 		o.M.D[e].ClosedW = true
 		return settleBoth(o, -1), ""
